@@ -100,6 +100,6 @@ HashOps(K, Vals) ==
 \cup [op : {"SetExp"}, k : K, ttl : {"S"}]
 CtrOps(K) ==
      [op : {"IncrBy"}, k : K, n : {1, 2}]
-\cup [op : {"Delete", "Exists"}, k : K]
-\cup [op : {"SetExp"}, k : K, ttl : {"S"}]
+\cup [op : {"Delete", "Exists", "GetExp"}, k : K]
+\cup [op : {"SetExp"}, k : K, ttl : Ttls]    \* a counter made persistent (ttl 0) must stay persistent under IncrBy
 =============================================================================
